@@ -115,7 +115,8 @@ PROPS = {
     'C08': {
         'mc_quick': ['MC_quick_nest.cfg'], 'mc_thorough': [('MC_nest.cfg', 1500)],
         'title': 'At most one execution per key',
-        'units': [('dup', 4000, 50000), ('general', 500, 8000)],
+        'units': [('dup', 4000, 50000), ('general', 500, 8000), ('regress', 0, 0)],
+        'thread_units': (120, 1200, 8, 0, 2, 10), 'thread_profile': 'threaddup',
         'owned': {'DuplicateRejected', 'SetupErrClass', 'SetupFailExpected', 'NoSpuriousException',
                   'ReuseOnlyIfValid', 'ExecOnlyIfJustified', 'PersistedEqualsReturned', 'ReturnMatches',
                   'FinalTreeMatches', 'OutputsNotRewritten', 'TargetFileAfterOk', 'OutcomeMatches',
@@ -183,6 +184,21 @@ PROPS = {
                 'single bit flips, non-gzip, gzip of non-JSON, JSON non-object, other software, newer format, '
                 'missing key; non-trivial = at least one refused call was judged (tree bit-identical, no '
                 'temp dir left, no user code run)',
+    },
+    'C09': {
+        'mc_quick': [], 'sim': None,
+        'title': 'Thread safety',
+        'thread_units': (150, 1500, 10, 0, 3, 12),   # base histories q/t, single preemptions per par q/t (0 = all), pairs q/t
+        'units': [('regress', 0, 0)],
+        'owned': set(CLAUSE_OWNER) | {'NoDeadlock'},
+        'nontrivial': lambda st, sc: any(x.get('s') == 'par' and (x.get('preempt') or x.get('rseed') is not None)
+                                         for stp in sc['steps'] for x in stp.get('root', [])),
+        'rule': 'root functions issuing 2-3 independent build_file/subbuild calls from cooperative threads: new / '
+                'shared / nested / stale parent directories, failing functions, nested calls, duplicates; followed by '
+                'an unchanged concurrent rebuild and clean; schedules = every (quick: sampled) single preemption at '
+                'the measured yield points of each thread, sampled pairs/triples, seeded random switching; the merged '
+                'trace is validated against the sequential contract; non-trivial = a schedule with at least one '
+                'forced or random preemption',
     },
     'C10': {
         'mc_quick': ['MC_quick.cfg'], 'mc_thorough': [('MC_nest.cfg', 1500)],
